@@ -185,6 +185,34 @@ def source_files(repo):
     return sorted(out)
 
 
+def build_lists_leg(chk, repo):
+    """The generator appends EVERY .cpp below src/qtlogger; the library is built from explicit lists
+    (src/qtlogger/CMakeLists.txt for cmake, src/qtlogger/qtlogger.pri for qmake).  A source that is in the header
+    but in no build list (or the other way round) gives header-only users other code than library users."""
+    root = os.path.join(repo, 'src', 'qtlogger')
+    cpps = {os.path.relpath(f, root) for f in source_files(repo) if f.endswith('.cpp')}
+    res = {'cpp_files': len(cpps)}
+    for name in ('CMakeLists.txt', 'qtlogger.pri'):
+        path = os.path.join(root, name)
+        if not os.path.exists(path):
+            continue
+        txt = re.sub(r'#[^\n]*', '', open(path, encoding='utf-8', errors='replace').read())
+        listed = set(re.findall(r'(?<![\w./-])((?:[\w-]+/)*[\w-]+\.cpp)\b', txt))
+        listed = {re.sub(r'^PWD/', '', l) for l in listed}
+        missing = sorted(cpps - listed)
+        extra = sorted(l for l in listed - cpps)
+        res[name] = {'listed': len(listed), 'in_header_not_in_build': missing, 'in_build_not_on_disk': extra}
+        if missing:
+            chk.fail('the single header contains %s (the generator appends every .cpp) but %s does not build it: a program using what it '
+                     'defines links header-only and not against the library' % (', '.join(missing), name),
+                     {'kind': 'header-has-source-the-library-lacks', 'build_file': 'src/qtlogger/' + name, 'sources': missing},
+                     kind='header-has-source-the-library-lacks')
+        if extra:
+            chk.broke('%s names sources that do not exist: %s' % (name, ', '.join(extra)), {'kind': 'build-list', 'build_file': name, 'sources': extra})
+    chk.cov['build_lists'] = res
+    return not chk.failing
+
+
 def blocks_leg(chk, repo, committed):
     """oracle on the header alone (no generator, no model): every library source has its block in
     qtlogger.h exactly once: '// name' for the root sources (.cpp, qtlogger.h), '// name' ... '// end name'
@@ -1434,6 +1462,7 @@ def run():
         finally:
             shutil.rmtree(top, ignore_errors=True)
     checked += 1 if blocks_leg(chk, repo, committed) else 0
+    checked += 1 if build_lists_leg(chk, repo) else 0
     checked += 1 if multi_include_leg(chk, repo) else 0
     checked += layout_leg(chk, repo)
     # the two expensive legs run side by side (8 compiler processes + make -j8)
